@@ -44,6 +44,9 @@ type Case struct {
 	// per block step after opening ('1' = fires)
 	Sched string `json:"sched"`
 	Bolt  bool   `json:"bolt,omitempty"` // run the node on a BoltChainDB
+	// Cache: the store runs on chain.NewCacheDB(database); the images are the commits of the
+	// database underneath the cache
+	Cache bool `json:"cache,omitempty"`
 	// Directed: a hand-built tree instead of a generated one
 	Directed string `json:"directed,omitempty"`
 	// CrashAt > 0: the live variant — the node stops after block step CrashAt, the database
@@ -188,7 +191,11 @@ func runCase(t *chaingen.Tree, cs Case, wantCoq bool) (o outcome) {
 		return len(nd.Steps) - 1
 	}
 	var err error
-	nd, err = storeobs.NewNode(t, rec, nil)
+	var db chain.DB = rec
+	if cs.Cache {
+		db = chain.NewCacheDB(rec)
+	}
+	nd, err = storeobs.NewNode(t, db, nil)
 	if err != nil {
 		o.fail = &failure{"c03-store-does-not-open", err.Error(), -1}
 		return
@@ -382,7 +389,10 @@ func runCase(t *chaingen.Tree, cs Case, wantCoq bool) (o outcome) {
 			break
 		}
 		// 5. catch-up: the reopened node is fed the whole history again
-		db2 := im.Open()
+		var db2 chain.DB = im.Open()
+		if cs.Cache {
+			db2 = chain.NewCacheDB(db2) // the audit above read the image directly; catch up through a fresh cache
+		}
 		nd2, err := storeobs.NewNodeFromImage(t, db2, nd.Steps[:im.Step+1], nd.Names)
 		if err != nil {
 			fail(k, "c03-image-does-not-reopen", "second reopen: %v", err)
@@ -605,6 +615,9 @@ func run(c *hx.Ctx) {
 		} else {
 			res.Count("backend:memdb")
 		}
+		if cs.Cache {
+			res.Count("store-on-a-CacheDB (images = commits of the database underneath)")
+		}
 		switch cs.Sched {
 		case "all", "none":
 			res.Count("schedule:" + cs.Sched)
@@ -717,6 +730,7 @@ func run(c *hx.Ctx) {
 	for _, regime := range []int{0, 1, 3} {
 		for _, sched := range []string{"none", "all", "0101010101"} {
 			cs, _ := contractCase(regime, sched)
+			cs.Cache = regime == 1
 			doCase(cs, true)
 		}
 	}
@@ -765,6 +779,7 @@ func run(c *hx.Ctx) {
 			cs.Plan = reorgPlan(pr, t)
 		}
 		cs.Bolt = c.Thorough && i%4 == 3
+		cs.Cache = i%3 == 2
 		cs.Sched = "all"
 		doCase(cs, true)
 		// a random subset of the block steps
